@@ -36,6 +36,10 @@ register("C01", "exploration", "E1 explore", "bounded exhaustive enumeration (fu
          "Every constructible filter chain x every size around the AES block and the (rebound and real) I/O block x textures, all documented parameter values, and all configurations within 2 (thorough 3) deviations of the default over header mode, target kind (path, BytesIO, file object, multi-volume 64/100/4096), member count, name class, chunk limit and API; oracle = names, extractall(factory) and extractall(path) equal the written list.",
          "Scaled planes rebind the two size constants on the data path; an anomaly is confirmed at the real constants before it is reported. Codec libraries are trusted.", "DESIGN.md section 5 C01")
 
+register("C07", "exploration", "E1 explore", "bounded exhaustive enumeration of write sessions, each judged by an independent strict parser/decoder",
+         "Every archive of the C01 planes plus all single/pair/triple append sessions over 8 member-list kinds (incl. directories, empty files, empty dirs, symlinks) is parsed by ref7z in strict mode, which enforces exactly the invariants the property names and re-derives every size and CRC by stage-wise decoding with its own codecs and 7zAES KDF.",
+         "Trusts ref7z (validated on 54 third-party fixtures at setup). Does not demand minimal NUMBER encodings, a CRC on the encoded header, or terminated Brotli streams (noted in DESIGN.md).", "DESIGN.md section 5 C07")
+
 NOT_YET = {}
 
 
